@@ -18,6 +18,14 @@ Case (JSON):
     | {"k":"count","name":s}   lena.flow.Count(name) as a Run element (stateful; post-elements and MapBins sequences)
     | {"k":"acc","kind":acc}   an accumulator (_Acc) as a Run element (stateful, filled when run() is called; MapBins only)
   P (a Python value) = int | str | {"t":[P..]} (tuple) | {"l":[P..]} (list) | {key:P} (dict; keys are never "t"/"l")
+  optional keys (adversary round):
+   "edges_form": the containers of the edges (tuple, range, array.array, a user-defined sequence, mixtures);
+   "fscale": S (coordinates and edges of the real run are the floats x / S; S = 2**60: arbitrary floats),
+   "edges_int": b (integer edges with float coordinates), "inexact": b (the sums the fixture keeps on the side are
+   not compared: they are rounded by the real code);
+   "shared_ctx": b (the source re-uses ONE context dictionary for all values and updates it in place);
+   "sel" of a stage may be a Selector form {"k":"type","t":..} | {"k":"ctx","s":"a.b"} | {"k":"any"|"all","of":[..]}
+   (+ "wrap": a ready Selector object); "map": "geb": "first"|"last" (a caller's get_example_bin)
 
 The analysis `FillComputeSeq(*pre, acc, *post)` is built from the fixture elements below (`_CallStep`,
 `_MultiStep`, `_Acc`) and lena's own `Variable`; `Model/C11Conc.lean` defines the same elements on the model side.
@@ -29,9 +37,9 @@ from harness.common import exc_name
 
 PID = "C11"
 TITLE = "SplitIntoBins runs the analysis per cell on exactly that cell's values"
-LEAN_MODULES = ["LenaModel.Props.C11", "LenaModel.Props.C11E"]
+LEAN_MODULES = ["LenaModel.Props.C11", "LenaModel.Props.C11E", "LenaModel.Props.C11S"]
 LEAN_SOURCES = ["LenaModel/Model/C11.lean", "LenaModel/Model/C11Spec.lean", "LenaModel/Model/C11Conc.lean",
-                "LenaModel/Lemmas/C11.lean", "LenaModel/Props/C11E.lean",
+                "LenaModel/Lemmas/C11.lean", "LenaModel/Props/C11E.lean", "LenaModel/Props/C11S.lean",
                 "LenaModel/Props/C11.lean"]
 DRIVER = "drivers/C11.lean"
 THEOREMS = [
@@ -79,6 +87,15 @@ THEOREMS = [
     "Lena.C11.map_bins_start_error",
     "Lena.C11.map_bins_complete",
     "Lena.C11.map_bins_raise",
+    # sentences 5, 6: which histograms are selected (select_bins as a Selector form, get_example_bin of the caller)
+    "Lena.C11.iterate_bins_once_form",
+    "Lena.C11.map_bins_shape_form",
+    "Lena.C11.map_bins_shape_G",
+    "Lena.C11.map_bins_passes_G",
+    "Lena.C11.map_bins_example_irrelevant",
+    "Lena.C11.selector_or_iff",
+    "Lena.C11.selector_and_iff",
+    "Lena.C11.selector_string_needs_context",
     # construction, two-level split
     "Lena.C11.new_valid",
     "Lena.C11.new_rejects_edges",
@@ -114,6 +131,11 @@ AUX_THEOREMS = [
     "Lena.C11.inCellB_iff",
     "Lena.C11.updateNested_absent",
     "Lena.C11.traces_spec",
+    "Lena.C11.mapBinsOneG_default",
+    "Lena.C11.mapBinsOneG_selected",
+    "Lena.C11.selector_class_data_only",
+    "Lena.C11.contains_spec",
+    "Lena.C11.lastOfArray_is_cell",
 ]
 TRUSTED = [
     "Lean 4.33.0 kernel; axioms limited to propext, Classical.choice, Quot.sound (audited by #print axioms on every run)",
@@ -140,7 +162,13 @@ TRUSTED = [
     "the fixture elements (_CallStep, _MultiStep, _Acc in harness/props/c11.py = Step, AccKind in Model/C11Conc.lean); "
     "JSON line protocol encoders (harness/props/c11.py, drivers/C11.lean)",
     "the driver searches bins with the guess `ind_min` (C06.bin1d_guess_independent: any in-range guess gives the same "
-    "index); the real code's floating-point guess is assumed in range",
+    "index); what the real code does with its floating-point guess (rounding of large integers, guesses outside the "
+    "search range, long arrays) is compared with that on every generated case",
+    "lena.flow.Selector / And / Or and lena.context.contains are transcribed for the forms of select_bins (SelForm, "
+    "containsV in Model/C11.lean: a callable, a class, a context string, a list, a tuple; no containers inside "
+    "containers); the oracle evaluates the same forms with its own Python reference (_sel_ref, _ref_contains)",
+    "shared_ctx cases: the analysis starts with a fixture element that deep-copies the value (`snap`), which the model "
+    "does not see (the identity in a model of values); float cases: Python's int / 2**k and float * 2**k are exact",
 ]
 ASSUMPTIONS = [
     "an analysis is observed through fill(value), the call compute() (which may raise at once: FillComputeSeq.compute is "
@@ -151,14 +179,26 @@ ASSUMPTIONS = [
     "not generated",
     "stateful elements are modelled after the accumulator and in MapBins sequences only (not among the pre-elements): "
     "'private copy per cell' is observed through the state of the accumulator and of stateful post-/map-elements",
-    "domain of the correspondence: edges are lists or tuples (any mixture) of integers, or of multiples of 1/S in float "
-    "cases; coordinates are integers/floats, tuples or lists of them; axes have at most 5 bins, flows at most 14 values, "
-    "1-3 dimensions; results in cells are numbers, tuples, (data, context) pairs or histograms, never Python lists "
-    "(md_map would descend into them) and never a bare tuple of the form (x, dict) (lena reads it as a pair); "
-    "MapBins(get_example_bin=...) and select_bins given as a list of types are not generated",
+    "domain of the correspondence: edges are lists, tuples, ranges, array.array or user-defined sequences (any mixture; "
+    "a collections.deque cannot be sliced and is rejected by lena) of integers of any size below 2**101, or of floats "
+    "x / S; coordinates are integers/floats, tuples or lists of them; axes have at most 5 bins in the general "
+    "cases and 16-129 bins in the long-axis cases, flows at most 14 values, 1-3 dimensions; results in cells are "
+    "numbers, tuples, (data, context) pairs or histograms, never Python lists (md_map would descend into them) and never "
+    "a bare tuple of the form (x, dict) (lena reads it as a pair); select_bins: functions, classes, context strings, "
+    "lists and tuples of them, ready Selector objects; MapBins(get_example_bin=...): the default, a first-cell and a "
+    "last-cell function",
     "float cases: the real code computes with the floats, the model with the integers S*x, every float of a result is "
     "mapped back exactly; elements that test `type(data) is int` and mixtures of float sums with integer counts are "
-    "excluded there",
+    "excluded there.  S in {2,4,8}: multiples of 1/S with arithmetic analyses.  S = 2**60 (arbitrary floats: decimal "
+    "fractions, one unit in the last place / 2**-k / a relative 1e-16..1e-7 beside an edge; 2**-7 <= |x| < 8 or a "
+    "multiple of 2**-60) and integer edges with float coordinates: analyses without arithmetic (store, each, count), "
+    "because float sums are rounded; integers beyond the float range (float() raises OverflowError in "
+    "get_bin_on_value_1d) are outside the domain",
+    "a source that re-uses one context dictionary for the whole flow and updates it in place (shared_ctx): the analysis "
+    "is assumed to take its own copy of what it keeps (fixture element `snap`); 'the context of the last value inside "
+    "the edges as it arrived' is then the content of that dictionary when fill() was called",
+    "the values yielded by compute(), IterateBins.run and MapBins.run are read when they are yielded and again after the "
+    "generator has ended (a consumer that collects them); both readings must show the per-cell results",
     "the private attributes `_cur_context` and the cells' `_fill_compute` are read because cell_is_subflow and "
     "context_is_last_inside speak about them; when they are not found they are not compared",
     "cases whose model reply contains `unmodelled` are not compared; they are counted in the evidence notes and the "
@@ -171,9 +211,15 @@ RULE = ("quick and thorough: (E) exhaustive small scope - for 1-d edges [0,2], [
         "argument variables Variable / typed Variable / Combine, analyses pre* acc post* over 7 accumulator kinds and 9 "
         "element kinds (context-mutating, multiplying, dropping, raising; stateful: lena.flow.Count and accumulators as Run "
         "elements in post-sequences and MapBins sequences), IterateBins and MapBins stages with selectors, "
-        "bare histograms and pass-through values; bad constructor arguments. Non-trivial: a histogram with >= 2 cells was "
-        "yielded and >= 2 values fell inside the edges.")
-CASE_TIMEOUT = 10
+        "bare histograms and pass-through values; bad constructor arguments; (A, adversary round) select_bins in every "
+        "form a Selector is made from (function, class, context string, list, tuple, Selector object), MapBins with a "
+        "caller's get_example_bin (first / last cell), edges in tuples, ranges, array.array, user-defined sequences and "
+        "mixtures, long axes (16-129 bins, values on the borders), large integers (2**31 .. 2**100, edges of very "
+        "different sizes on one axis, values one beside an edge, also as floats with integer edges), arbitrary floats "
+        "(S = 2**60: decimal fractions, values one ulp / 2**-k / 1e-16..1e-7 beside an edge), a source that re-uses one "
+        "context dictionary, every yielded object read again after the generator has ended. Non-trivial: a histogram "
+        "with >= 2 cells was yielded and >= 2 values fell inside the edges.")
+CASE_TIMEOUT = 5
 
 FIXED_KEYS = ["variable", "name", "type", "compose", "combine", "dim", "bins", "bin", "edges", "edges_str", "value"]
 
@@ -312,18 +358,25 @@ def _value(j, S=1):
     return (d, _py(j["c"])) if j.get("c") is not None else d
 
 
-def _edges_py(edges, S=1):
+def _edges_py(edges, S=1, as_int=False):
+    """the edges of the real run: in a float case (S > 1) the floats e / S - or, with `as_int`, the integers e // S
+    (integer edges with float coordinates)"""
     if S == 1:
         return copy.deepcopy(edges)
+    f = (lambda e: e // S) if as_int else (lambda e: e / S)
     if edges and isinstance(edges[0], list):
-        return [[e / S for e in a] for a in edges]
-    return [e / S for e in edges]
+        return [[f(e) for e in a] for a in edges]
+    return [f(e) for e in edges]
 
 
 def _enc_edges(edges, nm):
-    if edges and isinstance(edges[0], (list, tuple)):
-        return [[_slots(e, nm) for e in a] for a in edges]
-    return [_slots(e, nm) for e in edges]
+    """the edges as nested lists of model numbers, whatever sequences hold them (list, tuple, range, array, ...):
+    the property speaks about the values of the edges, not about their container"""
+    edges = list(edges)
+    enc = lambda e: e * nm.fscale if type(e) is int else _slots(e, nm)     # (an integer edge of a float case)
+    if edges and hasattr(edges[0], "__iter__"):
+        return [[enc(e) for e in a] for a in edges]
+    return [enc(e) for e in edges]
 
 
 def _stage_value(j):
@@ -476,6 +529,10 @@ class _CallStep(object):
         if k == "setkey":
             ctx[s["key"]] = _py(copy.deepcopy(s["v"]))   # in place
             return (data, ctx)
+        if k == "snap":
+            # a private copy of the value: what follows never holds an object of the caller (used when the source
+            # re-uses one context object for the whole flow; the identity in a model of values)
+            return copy.deepcopy(value)
         if k == "failon":
             if type(data) is int and data == s["x"]:
                 raise ValueError("failon")
@@ -581,21 +638,22 @@ def _make_cell_analysis(case, bare_acc=False):
     """the analysis that is split: `pre* acc post*`, or for a two-level split
     `FillComputeSeq(SplitIntoBins(inner analysis, inner variable, inner edges), IterateBins(select_bins))`"""
     inn = case.get("inner")
+    snap = [_CallStep({"k": "snap"})] if case.get("shared_ctx") else []
     if not inn:
-        return _make_analysis(case["spec"], bare_acc)
+        return _make_analysis(case["spec"], bare_acc, snap)
     import lena.core
     from lena.structures import SplitIntoBins, IterateBins
     isib = SplitIntoBins(_make_analysis(inn["spec"]), _make_argvar(inn["argvar"]),
                          _edges_py(inn["edges"], case.get("fscale", 1)))
-    return lena.core.FillComputeSeq(isib, IterateBins(select_bins=_sel_fn(inn["sel"], False)))
+    return lena.core.FillComputeSeq(*(snap + [isib, IterateBins(select_bins=_sel_fn(inn["sel"], False))]))
 
 
-def _make_analysis(spec, bare_acc=False):
+def _make_analysis(spec, bare_acc=False, snap=()):
     import lena.core
     acc = _Acc(spec["acc"])
-    if bare_acc and not spec["pre"] and not spec["post"]:
+    if bare_acc and not spec["pre"] and not spec["post"] and not snap:
         return acc
-    els = [_make_step(s) for s in spec["pre"]] + [acc] + [_make_step(s) for s in spec["post"]]
+    els = list(snap) + [_make_step(s) for s in spec["pre"]] + [acc] + [_make_step(s) for s in spec["post"]]
     return lena.core.FillComputeSeq(*els)
 
 
@@ -619,11 +677,78 @@ def _make_ces(cfg):
 
 
 def _sel_arg(sel, on_value):
+    """the `select_bins` argument.  `sel` is a name (a function: all / int / none; "default": the argument is left out;
+    "bad": not convertible to a Selector) or one of the other forms a `lena.flow.Selector` is made from:
+      {"k":"type","t":"int|str|tuple|list|hist"}   a class: the data part of the value is an instance of it
+      {"k":"ctx","s":"a.b.c"}                      a string: the context of the value contains that (`lena.context.contains`)
+      {"k":"any","of":[..]} / {"k":"all","of":[..]} a list (or) / a tuple (and) of names, classes and strings
+    with "wrap": true the argument is a ready `Selector` object"""
     if sel == "default":
         return None
     if sel == "bad":
         return 1
+    if isinstance(sel, dict):
+        arg = _sel_raw(sel, on_value)
+        if sel.get("wrap"):
+            import lena.flow
+            return lena.flow.Selector(arg)
+        return arg
     return _sel_fn(sel, on_value)
+
+
+_SEL_TYPES = {"int": int, "str": str, "tuple": tuple, "list": list}
+
+
+def _sel_raw(sel, on_value):
+    if not isinstance(sel, dict):
+        return _sel_fn(sel, on_value)
+    k = sel["k"]
+    if k == "type":
+        if sel["t"] == "hist":
+            from lena.structures import histogram
+            return histogram
+        return _SEL_TYPES[sel["t"]]
+    if k == "ctx":
+        return sel["s"]
+    items = [_sel_raw(x, on_value) for x in sel["of"]]
+    return items if k == "any" else tuple(items)
+
+
+def _ref_contains(ctx, s):
+    """reference for a string selector: the context has the nested keys a.b.c, or the value "c" under a.b"""
+    if s == "":
+        return True
+    levels = s.split(".")
+    cur = ctx
+    for key in levels[:-1]:
+        if not isinstance(cur, dict) or key not in cur:
+            return False
+        cur = cur[key]
+    if isinstance(cur, dict):
+        return levels[-1] in cur
+    if type(cur) in (int, str):
+        return str(cur) == levels[-1]
+    raise _Undefined("a context value that is neither a number nor a string is compared with a string")
+
+
+def _sel_ref(sel, on_value):
+    """what the selector `sel` says about an example bin (a value; for IterateBins its data part), evaluated
+    independently of lena.flow.Selector"""
+    if not isinstance(sel, dict):
+        return _sel_fn(sel, on_value)
+    k = sel["k"]
+    if k == "type":
+        if sel["t"] == "hist":
+            return lambda v: _is_hist(_split(v)[0] if on_value else v)
+        cls = _SEL_TYPES[sel["t"]]
+        return lambda v: isinstance(_split(v)[0] if on_value else v, cls) and not _is_hist(v)
+    if k == "ctx":
+        # IterateBins tests the data part of the example bin: it has no context
+        return lambda v: _ref_contains(_split(v)[1] if on_value else {}, sel["s"])
+    fs = [_sel_ref(x, on_value) for x in sel["of"]]
+    if k == "any":
+        return lambda v: any(f(v) for f in fs)
+    return lambda v: all(f(v) for f in fs)
 
 
 def _sel_fn(sel, on_value):
@@ -718,7 +843,21 @@ def _run_stage(el, inputs, nm):
                 if i in seen and seen[i] != k:
                     alias = True
                 seen[i] = k
-    return {"out": outs, "fin": fin, "src": src, "fin_src": fin_src, "alias": alias}
+    # the yielded objects read again after the stage has ended (what a consumer that collects them sees)
+    late = [_enc_fval(o, nm) for o in objs]
+    return {"out": outs, "fin": fin, "src": src, "fin_src": fin_src, "alias": alias, "late_same": late == outs}
+
+
+def _example_bin_fn(which):
+    """a caller's `get_example_bin` for MapBins: the first or the last cell of a histogram or of an array of bins"""
+    k = 0 if which == "first" else -1
+
+    def get_example_bin(struct):
+        bins = getattr(struct, "bins", struct)
+        while isinstance(bins, list):
+            bins = bins[k]
+        return bins
+    return get_example_bin
 
 
 def _map_seq_ok(st):
@@ -763,24 +902,90 @@ def _drain_compute(sib, nm, keep):
         if not isinstance(hist, histogram):
             raise AssertionError("compute() did not yield a histogram")
         outs.append({"edges": _enc_edges(hist.edges, nm), "bins": _enc_bins(hist.bins, nm), "c": _slots(ctx, nm)})
+        live.append(o)
         if keep:
             hists.append(copy.deepcopy((hist, ctx)))
-            live.append(o)
-    return {"out": outs, "fin": fin}, hists, live
+    # the yielded objects read again after the generator has ended (what `list(sib.compute())` holds)
+    late = [{"edges": _enc_edges(h.edges, nm), "bins": _enc_bins(h.bins, nm), "c": _slots(c, nm)} for (h, c) in live]
+    return {"out": outs, "fin": fin, "late": late}, hists, live
+
+
+class _UserSeq(object):
+    """a user-defined sequence (supports len, indexing with integers and slices, iteration): an axis, or the
+    container of the axes"""
+
+    def __init__(self, items):
+        self._items = list(items)
+
+    def __len__(self):
+        return len(self._items)
+
+    def __getitem__(self, i):
+        r = self._items[i]
+        return _UserSeq(r) if isinstance(i, slice) else r
+
+    def __iter__(self):
+        return iter(self._items)
+
+    def __eq__(self, other):
+        try:
+            return list(self) == list(other)
+        except TypeError:
+            return NotImplemented
+
+    def __ne__(self, other):
+        r = self.__eq__(other)
+        return r if r is NotImplemented else not r
+
+    def __repr__(self):
+        return "_UserSeq({!r})".format(self._items)
+
+
+def _is_range(a):
+    return len(a) >= 2 and all(type(x) is int for x in a) and a[1] > a[0] and \
+        all(y - x == a[1] - a[0] for x, y in zip(a, a[1:]))
+
+
+def _axis_as(a, kind):
+    """one axis in the container type `kind`"""
+    import array
+    if kind == "tuple":
+        return tuple(a)
+    if kind == "range" and _is_range(a):
+        return range(a[0], a[-1] + 1, a[1] - a[0])
+    if kind == "array" and a and all(type(x) is int and abs(x) < 2 ** 62 for x in a):
+        return array.array("q", a)
+    if kind == "array" and a and all(type(x) is float for x in a):
+        return array.array("d", a)
+    if kind == "userseq":
+        return _UserSeq(a)
+    return list(a)
 
 
 def _form_edges(edges, form):
-    """the same edges as lists (default), tuples, or a mixture: any sequence is an axis for lena"""
+    """the same edges as lists (default), tuples, ranges, arrays (array.array), user-defined sequences or a mixture:
+    any sequence is an axis for lena, and any sequence of axes the edges of several dimensions"""
     if not form or form == "list":
         return edges
     nested = bool(edges) and isinstance(edges[0], list)
     if not nested:
+        if form in ("range", "array", "userseq"):
+            return _axis_as(edges, form)
         return tuple(edges)
     if form == "tuple":
         return tuple(tuple(a) for a in edges)
     if form == "list_of_tuples":
         return [tuple(a) for a in edges]
-    return tuple(list(a) for a in edges)          # tuple_of_lists
+    if form == "tuple_of_lists":
+        return tuple(list(a) for a in edges)
+    if form == "mixed":                           # every axis in another container
+        kinds = ["range", "userseq", "array", "tuple"]
+        return [_axis_as(a, kinds[k % len(kinds)]) for k, a in enumerate(edges)]
+    if form == "userseq_of_userseq":
+        return _UserSeq([_UserSeq(a) for a in edges])
+    if form in ("range", "array", "userseq"):
+        return [_axis_as(a, form) for a in edges]
+    return tuple(list(a) for a in edges)
 
 
 def _untouched(seq):
@@ -791,25 +996,54 @@ def _untouched(seq):
         return True
 
 
+def _inplace_set(dst, src):
+    """make the dictionary `dst` equal to `src` without replacing the dictionaries inside it that can be kept: a source
+    that owns one context and updates it in place, at every level"""
+    for k in [k for k in dst if k not in src]:
+        del dst[k]
+    for k, v in src.items():
+        if isinstance(v, dict) and isinstance(dst.get(k), dict):
+            _inplace_set(dst[k], v)
+        else:
+            dst[k] = v
+
+
+def _inplace_clobber(d):
+    """after the last value the source overwrites its context, at every level"""
+    for v in list(d.values()):
+        if isinstance(v, dict):
+            _inplace_clobber(v)
+    d.clear()
+    d["overwritten"] = "by the source after the last value"
+
+
 def run_impl(case):
     import lena.core
     from lena.structures import SplitIntoBins, IterateBins, MapBins, histogram
     nm = _names(case)
     S = case.get("fscale", 1)
     form = case.get("edges_form")
-    edges = _form_edges(_edges_py(case["edges"], S), form)
+    edges = _form_edges(_edges_py(case["edges"], S, case.get("edges_int")), form)
     seq = _make_cell_analysis(case, case.get("bare_acc", False)) if case.get("seq_ok", True) else lena.core.Sequence()
     av = _make_argvar(case["argvar"]) if case.get("argvar_ok", True) else (lambda d: d)
     try:
         sib = SplitIntoBins(seq, av, edges)
     except Exception as e:
         return {"init": exc_name(e)}
-    flow = [_value(v, S) for v in case["flow"]]
-    for k, v in enumerate(flow):
+    # shared_ctx: the source of the flow owns ONE context dictionary and updates it in place before it yields the next
+    # value (the analysis takes a private copy of every value first, see `snap`)
+    shared = {} if case.get("shared_ctx") else None
+    for k, j in enumerate(case["flow"]):
+        v = _value(j, S)
+        if shared is not None and _has_context(v):
+            _inplace_set(shared, v[1])
+            v = (v[0], shared)
         try:
             sib.fill(v)
         except Exception as e:
             return {"fill": {"at": k, "e": exc_name(e)}}
+    if shared is not None:
+        _inplace_clobber(shared)
     res = {}
     # the state of the cells and `_cur_context` are private attributes: they are read because `cell_is_subflow` and
     # `context_is_last_inside` speak about them; when they cannot be found (a refactoring) they are not compared
@@ -819,18 +1053,22 @@ def run_impl(case):
         res["cells"] = None
     res["cur"] = _slots(sib._cur_context, nm) if hasattr(sib, "_cur_context") else None
     res["compute"], hists, live = _drain_compute(sib, nm, True)
+    res["compute_late"] = res["compute"].pop("late")
     # a second compute() on the same object
     res["compute2"] = _drain_compute(sib, nm, False)[0] if case.get("twice") else None
+    if res["compute2"] is not None:
+        res["compute2"].pop("late")
     # the object that was passed as `seq` must not be a cell and must not have been filled
     res["seq_private"] = not any(cell is seq or _acc_of(cell) is _acc_of(seq) for _, cell in _iter_cells(sib.bins)) \
         and _untouched(seq)
     # a second SplitIntoBins built from the SAME analysis object and the SAME argument-variable object
     res["reuse"] = None
     if case.get("reuse"):
-        sib2 = SplitIntoBins(seq, av, _form_edges(_edges_py(case["edges"], S), form))
+        sib2 = SplitIntoBins(seq, av, _form_edges(_edges_py(case["edges"], S, case.get("edges_int")), form))
         for v in [_value(j, S) for j in case["flow"]]:
             sib2.fill(v)
         res["reuse"] = _drain_compute(sib2, nm, False)[0]
+        res["reuse"].pop("late")
     # a downstream element applied, one after the other, to the values compute() yielded (the objects themselves)
     res["pipe"] = None
     if case.get("pipe"):
@@ -863,7 +1101,12 @@ def run_impl(case):
         steps = [_make_step(s) for s in st["steps"]]
         mseq = _map_seq(st, steps)
         try:
-            el = MapBins(mseq, select_bins=_sel_arg(st["sel"], True), drop_bins_context=st["drop"])
+            kw = {}
+            if st.get("geb") in ("first", "last"):
+                kw["get_example_bin"] = _example_bin_fn(st["geb"])
+            if st["sel"] != "default":
+                kw["select_bins"] = _sel_arg(st["sel"], True)
+            el = MapBins(mseq, drop_bins_context=st["drop"], **kw)
         except Exception as e:
             el, res["map"] = None, {"init": exc_name(e)}
         if el is not None:
@@ -896,14 +1139,24 @@ def _entry_req(v, nm):
     return _enc_value(_value(v), nm)
 
 
+def _sel_req(sel, is_map):
+    """the selector as the model sees it (a ready Selector object is the selector it was made from)"""
+    if isinstance(sel, dict):
+        return {k: ([_sel_req(x, is_map) for x in v] if k == "of" else v) for k, v in sel.items() if k != "wrap"}
+    if is_map and sel == "default":
+        return "all"                       # select_bins left out: `lambda _: True`
+    return sel
+
+
 def _stage_req(st, nm, steps=False):
-    r = {"sel": st["sel"], "bare": bool(st.get("bare")),
+    r = {"sel": _sel_req(st["sel"], steps), "bare": bool(st.get("bare")),
          "pre": [_entry_req(v, nm) for v in st["pre"]],
          "post": [_entry_req(v, nm) for v in st["post"]]}
     if steps:
         r["steps"] = [_step_req(s, nm) for s in st["steps"]]
         r["drop"] = bool(st["drop"])
         r["seq_ok"] = _map_seq_ok(st)
+        r["geb"] = st.get("geb") or "default"
     else:
         r["ces"] = st.get("ces") or {"k": "default"}
     return r
@@ -952,6 +1205,14 @@ def _has_unmodelled(o):
     if isinstance(o, list):
         return any(_has_unmodelled(v) for v in o)
     return o == "unmodelled"
+
+
+def _mask_sums(o):
+    if isinstance(o, dict):
+        return {k: (None if k == "sum" else _mask_sums(v)) for k, v in o.items()}
+    if isinstance(o, list):
+        return [_mask_sums(v) for v in o]
+    return o
 
 
 def _strip(st):
@@ -1017,6 +1278,11 @@ def compare(case, res, replies):
         return None if res.get("init") == m.get("init") else f"__init__: impl {res.get('init')} vs model {m.get('init')}"
     if "fill" in res or "fill" in m:
         return None if res.get("fill") == m.get("fill") else f"fill: impl {res.get('fill')} vs model {m.get('fill')}"
+    if case.get("inexact") and res.get("cells") is not None:
+        # floats that are not multiples of a small unit: the sums the fixture accumulators keep on the side are
+        # rounded by the real code (the analyses of these cases never yield them)
+        res = dict(res, cells=_mask_sums(res["cells"]))
+        m = dict(m, cells=_mask_sums(m["cells"]))
     for k in ("cells", "cur", "compute", "compute2", "pipe"):
         if k in ("cells", "cur") and res[k] is None:
             continue                       # private attributes not found: not compared
@@ -1103,7 +1369,7 @@ def _nest(bins_flat, dims):
 def _reference_sib(case):
     """per cell: a private copy of the analysis, fed with that cell's sub-flow in arrival order"""
     S = case.get("fscale", 1)
-    edges = _edges_py(case["edges"], S)
+    edges = _edges_py(case["edges"], S, case.get("edges_int"))
     axes, nested = _axes(edges)
     dims = [len(a) - 1 for a in axes]
     cells = list(itertools.product(*[range(d) for d in dims]))
@@ -1218,6 +1484,17 @@ def _first_cell(bins):
     return bins
 
 
+def _example_cell(bins, geb):
+    """the "arbitrary bin" that select_bins tests: the first cell, or what the caller's get_example_bin returns"""
+    if geb == "last":
+        while isinstance(bins, list):
+            if not bins:
+                raise _Undefined("empty bins")
+            bins = bins[-1]
+        return bins
+    return _first_cell(bins)
+
+
 def _regular(bins, dims):
     if not dims:
         return not isinstance(bins, list)
@@ -1245,7 +1522,7 @@ def _oracle_iter(case, st, cfg, nm):
                 continue
             hctx = _unslots(fv["c"], nm) if fv["c"] is not None else {}
             d00 = _split(_first_cell(bins))[0]
-            if not _sel_fn(cfg["sel"], False)(d00):
+            if not _sel_ref(cfg["sel"], False)(d00):
                 continue
             expected = []
             for idx in itertools.product(*[range(d) for d in dims]):
@@ -1278,6 +1555,9 @@ def _oracle_iter(case, st, cfg, nm):
     if st["alias"]:
         return ("IterateBins: the contexts yielded for different cells share a dictionary object "
                 "(a cell's context must be its own)")
+    if st.get("late_same") is False:
+        return ("IterateBins: a value that was yielded changed while the following ones were produced "
+                "(a consumer that collects the cells does not get every cell with its own data and context)")
     return None
 
 
@@ -1300,7 +1580,8 @@ def _oracle_map(case, st, cfg, nm):
             bins = _dec_bins(fv["h"]["bins"], nm)
             if not _regular(bins, dims):
                 continue
-            if not _sel_fn(cfg["sel"], True)(_first_cell(bins)):
+            # (select_bins left out: every histogram is transformed)
+            if not _sel_ref("all" if cfg["sel"] == "default" else cfg["sel"], True)(_example_cell(bins, cfg.get("geb"))):
                 continue
             per_cell = []
             for idx in itertools.product(*[range(d) for d in dims]):
@@ -1337,6 +1618,9 @@ def _oracle_map(case, st, cfg, nm):
             if g["h"]["bins"] != e["bins"]:
                 return (f"MapBins result {j} over edges {edges}: bins {_dec_bins(g['h']['bins'], nm)} differ from the "
                         f"sequence applied to each cell {_dec_bins(e['bins'], nm)}")
+    if st.get("late_same") is False:
+        return ("MapBins: a histogram that was yielded changed while the following ones were produced "
+                "(a consumer that collects the histograms does not get the sequence applied to every cell)")
     return None
 
 
@@ -1376,6 +1660,14 @@ def oracle(case, res):
         if ref["ctx"] is not None and o["c"] != _slots(ref["ctx"], nm):
             return (f"histogram {j}: context {_unslots(o['c'], nm)} is not the context of the last value inside the "
                     f"edges with the argument variable applied, {ref['ctx']}")
+    late = res.get("compute_late")
+    if late is not None and late != outs:
+        bad = [j for j, (a, b) in enumerate(zip(outs, late)) if a != b]
+        j = bad[0] if bad else 0
+        return (f"the histograms yielded by compute() do not keep their content: histogram {j} held bins "
+                f"{_dec_bins(outs[j]['bins'], nm)} (context {_unslots(outs[j]['c'], nm)}) when it was yielded and holds "
+                f"{_dec_bins(late[j]['bins'], nm)} (context {_unslots(late[j]['c'], nm)}) after the generator has ended - "
+                f"a consumer that collects the results (list(sib.compute())) does not get the per-cell results")
     if res.get("seq_private") is False:
         return ("SplitIntoBins kept or filled the analysis object that was passed to it: every cell must hold a private "
                 "copy (the object is a cell, or is no longer in its initial state after the flow)")
@@ -1479,11 +1771,12 @@ def _gen_steps(rng, n, int_data, wild, where="pre", flt=False):
     return steps, int_data
 
 
-def _gen_axis(rng, maxbins):
+def _gen_axis(rng, maxbins, ap=False, minbins=1):
     x = rng.randint(-3, 2)
     arr = [x]
-    for _ in range(rng.randint(1, maxbins)):
-        x += rng.choice([1, 2, 2, 3])
+    step = rng.choice([1, 1, 2, 3])
+    for _ in range(rng.randint(minbins, maxbins)):
+        x += step if ap else rng.choice([1, 2, 2, 3])
         arr.append(x)
     return arr
 
@@ -1548,19 +1841,69 @@ def _gen_ces(rng, ndim):
     return o
 
 
+_CTX_SELS = ["a", "b", "variable", "variable.name", "variable.name.y", "variable.name.t", "variable.name.z",
+             "variable.name.x", "variable.type.coordinate", "src.run.7", "src.run.8", "src.run", "a.1", "a.5", "a.s",
+             "bins", "bin.edges_str.old", "n", "zzz", "value.a", ""]
+
+
+def _gen_sel_atom(rng, flt, is_map):
+    r = rng.random()
+    if r < 0.3:
+        return rng.choice(["all", "none"] + ([] if flt else ["int"]))
+    if r < 0.75 or not is_map:
+        # (in a float case the numbers of the real run are floats, those of the model integers: no test for int)
+        return {"k": "type", "t": rng.choice(["tuple", "tuple", "str", "hist", "list"] + ([] if flt else ["int"] * 4))}
+    return {"k": "ctx", "s": rng.choice(_CTX_SELS)}
+
+
+def _gen_sel(rng, flt, is_map):
+    """a select_bins argument in one of the forms a Selector is made from"""
+    r = rng.random()
+    if r < 0.45:
+        sel = _gen_sel_atom(rng, flt, is_map)
+        if not isinstance(sel, dict):
+            sel = {"k": "type", "t": "tuple" if flt else "int"}
+    elif r < 0.6:
+        sel = {"k": "ctx", "s": rng.choice(_CTX_SELS)}
+    else:
+        sel = {"k": rng.choice(["any", "all"]), "of": [_gen_sel_atom(rng, flt, is_map) for _ in range(rng.choice([0, 1, 2, 2, 3]))]}
+    if rng.random() < 0.2:
+        sel["wrap"] = True
+    return sel
+
+
 def _gen_stages(rng, case, res_int, wild, ndim, flt=False):
     if rng.random() < 0.7:
-        case["iter"] = {"sel": rng.choice(["all"] * 16 + ["int", "none", "default", "bad"]), "bare": rng.random() < 0.15,
+        sel = rng.choice(["all"] * 16 + ["none", "default", "bad"] + ([] if flt else ["int"]))
+        if rng.random() < 0.25:
+            sel = _gen_sel(rng, flt, False)
+        case["iter"] = {"sel": sel, "bare": rng.random() < 0.15,
                         "ces": {"k": "const", "s": "cell"} if flt else _gen_ces(rng, ndim),
                         "pre": [_gen_extra(rng) for _ in range(rng.choice([0, 0, 1]))],
                         "post": [_gen_extra(rng) for _ in range(rng.choice([0, 0, 1]))]}
     if rng.random() < 0.7:
         steps, _ = _gen_steps(rng, rng.choice([0, 1, 1, 2, 2]), res_int, wild, "map", flt)
-        case["map"] = {"steps": steps, "sel": rng.choice(["all"] * 16 + ["int", "none", "bad"]),
+        sel = rng.choice(["all"] * 14 + ["none", "bad", "default", "default"] + ([] if flt else ["int"]))
+        if rng.random() < 0.3:
+            sel = _gen_sel(rng, flt, True)
+        case["map"] = {"steps": steps, "sel": sel,
                        "drop": rng.random() < 0.6, "bare": rng.random() < 0.1,
                        "seq_ok": rng.random() > 0.03, "seq_form": rng.choice(["sequence"] * 6 + ["element"] * 3 + ["tuple"]),
                        "pre": [_gen_extra(rng) for _ in range(rng.choice([0, 0, 1]))],
                        "post": [_gen_extra(rng) for _ in range(rng.choice([0, 0, 1]))]}
+        r = rng.random()
+        if r < 0.25:
+            # a caller's get_example_bin: the bin that select_bins tests and whose context goes to context.value
+            case["map"]["geb"] = "last" if r < 0.18 else "first"
+            # make the choice of the example bin matter: selectors that tell cells apart (by their context, by the
+            # type of their data) and histograms whose cells differ
+            if rng.random() < 0.6:
+                case["map"]["sel"] = rng.choice([{"k": "ctx", "s": "a"}, {"k": "ctx", "s": "b"}, {"k": "ctx", "s": "bins"},
+                                                 {"k": "ctx", "s": "variable.name.z"}, {"k": "ctx", "s": "src"},
+                                                 {"k": "type", "t": "tuple"}, {"k": "type", "t": "tuple" if flt else "int"},
+                                                 {"k": "any", "of": [{"k": "ctx", "s": "a"}, {"k": "type", "t": "tuple"}]}])
+            if not flt and rng.random() < 0.6:
+                case["map"]["pre"].append(_gen_hist(rng))
         if case["map"]["seq_form"] == "element" and (len(steps) != 1 or steps[0]["k"] == "count"):
             # (a bare lena.flow.Count as `seq` gets the list [cell] as flow and calls next() on it: TypeError)
             case["map"]["seq_form"] = "sequence"
@@ -1614,6 +1957,8 @@ def _gen_two_level(rng, big):
         case["iter"]["sel"] = rng.choice(["all"] * 6 + ["default"] * 5 + ["int"])
     if rng.random() < 0.2:
         case["reuse"] = True
+    if rng.random() < 0.12 and any("c" in v for v in flow):
+        case["shared_ctx"] = True
     _gen_forms(rng, case)
     return case
 
@@ -1658,6 +2003,12 @@ def _gen_float(rng, big):
     case = {"edges": edges, "fscale": S, "seq_ok": True, "argvar_ok": True, "bare_acc": rng.random() < 0.3,
             "argvar": argvar, "spec": spec, "flow": flow, "iter": None, "map": None}
     _gen_stages(rng, case, res_int, False, dim, True)
+    if rng.random() < 0.12 and any("c" in v for v in flow):
+        case["shared_ctx"] = True
+        case["bare_acc"] = False
+    if rng.random() < 0.25 and all(e % S == 0 for a in axes for e in a):
+        case["edges_int"] = True                # integer edges, float coordinates
+        case["iter"] = None                     # (context.bin.edges would hold unscaled integers)
     _gen_forms(rng, case)
     for st in ("iter", "map"):
         if case[st]:
@@ -1665,6 +2016,249 @@ def _gen_float(rng, big):
                 case[st]["sel"] = "all"
             case[st]["pre"] = [v for v in case[st]["pre"] if "h" not in v]
             case[st]["post"] = [v for v in case[st]["post"] if "h" not in v]
+    return case
+
+
+def _gen_spec_noarith(rng, tuple_data):
+    """an analysis that never computes with the numbers of the flow (it stores, counts, projects, copies, sets keys):
+    for coordinates whose sums are not exact in floating point"""
+    def steps(n, where, td):
+        out = []
+        for _ in range(n):
+            k = rng.choice(["setkey", "setkey", "var", "dup"] + (["proj"] if td else []) + (["count"] if where != "pre" else []))
+            if k == "setkey":
+                key, v = rng.choice(_SETKEYS)
+                out.append({"k": "setkey", "key": key, "v": v})
+            elif k == "var":
+                pr = rng.choice([0, 1]) if td and rng.random() < 0.5 else None
+                out.append({"k": "var", "name": rng.choice(["y", "t"]), "proj": pr, "type": rng.choice(["", "", "coordinate"]),
+                            "kw": rng.choice([{}, {}, {"unit": "mm"}])})
+                td = td and pr is None
+            elif k == "proj":
+                out.append({"k": "proj", "i": rng.choice([0, 0, 1])})
+                td = False
+            elif k == "count":
+                out.append({"k": "count", "name": rng.choice(["n", "a"])})
+            else:
+                out.append({"k": k})
+        return out, td
+    pre, td = steps(rng.choice([0, 0, 1, 1, 2]), "pre", tuple_data)
+    acc = rng.choice(["store", "store", "each", "each", "count"])
+    post, td = steps(rng.choice([0, 0, 1, 2]), "post", td and acc == "each")
+    return {"pre": pre, "acc": acc, "post": post}, td
+
+
+def _noarith_stages(rng, case, td, ndim, with_iter=True):
+    """IterateBins / MapBins behind an analysis without arithmetic (the edges are not formatted: floats)"""
+    _gen_stages(rng, case, False, False, ndim, True)
+    if not with_iter:
+        case["iter"] = None
+    if case["map"]:
+        msteps = []
+        for _ in range(rng.choice([0, 1, 1, 2])):
+            k = rng.choice(["setkey", "var", "dup", "count", "acc", "acc"])
+            if k == "setkey":
+                key, v = rng.choice(_SETKEYS)
+                msteps.append({"k": "setkey", "key": key, "v": v})
+            elif k == "var":
+                msteps.append({"k": "var", "name": "t", "proj": None, "type": rng.choice(["", "coordinate"]), "kw": {}})
+            elif k == "count":
+                msteps.append({"k": "count", "name": "n"})
+            elif k == "acc":
+                msteps.append({"k": "acc", "kind": rng.choice(["store", "each", "count"])})
+            else:
+                msteps.append({"k": k})
+        case["map"]["steps"] = msteps
+        if case["map"]["seq_form"] == "element" and (len(msteps) != 1 or msteps[0]["k"] == "count"):
+            case["map"]["seq_form"] = "sequence"
+    for st in ("iter", "map"):
+        if case[st]:
+            case[st]["pre"] = [v for v in case[st]["pre"] if "h" not in v]
+            case[st]["post"] = [v for v in case[st]["post"] if "h" not in v]
+
+
+_FINE = 2 ** 60
+
+
+def _fine_ok(x):
+    """a float that the model can hold exactly as an integer number of 2**-60"""
+    return abs(x) < 8 and (x * 2.0 ** 60).is_integer()
+
+
+def _gen_float_fine(rng, big):
+    """ARBITRARY floats as edges and coordinates (decimal fractions like 0.1, 0.3, dyadic fractions), and values that
+    differ from an edge by one unit in the last place, by 2**-k, by a relative 1e-16 .. 1e-7: the model computes with
+    the integers x * 2**60 (exact for 2**-7 <= |x| < 8 and for multiples of 2**-60)"""
+    import math
+    dim = 1 if rng.random() < 0.65 else 2
+
+    def axis(maxbins):
+        style = rng.random()
+        if style < 0.4:
+            pool = [k / 10 for k in range(-30, 31)]
+        elif style < 0.7:
+            pool = [k / 8 for k in range(-24, 25)]
+        elif style < 0.85:
+            pool = [k / 3 for k in range(-9, 10)] + [0.1 + 0.2, 0.3, 1 / 7, 2 / 7, math.pi / 2, math.e / 2]
+        else:
+            pool = [float(k) for k in range(-3, 4)] + [k + 2.0 ** -30 for k in range(-3, 4)]
+        pool = sorted(set(x for x in pool if _fine_ok(x)))
+        n = rng.randint(2, min(maxbins + 1, len(pool)))
+        return sorted(rng.sample(pool, n))
+
+    axes = [axis(5)] if dim == 1 else [axis(3), axis(3)]
+
+    def near(ax):
+        e = rng.choice(ax)
+        r = rng.random()
+        if r < 0.2:
+            c = [e]
+        elif r < 0.45:
+            c = [math.nextafter(e, -math.inf), math.nextafter(e, math.inf)]
+        elif r < 0.6:
+            k = rng.choice([20, 30, 40, 45, 50, 52, 55, 60])
+            c = [e - 2.0 ** -k, e + 2.0 ** -k]
+        elif r < 0.8:
+            t = rng.choice([1e-16, 1e-15, 1e-13, 1e-12, 1e-10, 1e-9, 1e-7])
+            c = [e * (1 - t), e * (1 + t), e - t, e + t]
+        elif r < 0.9:
+            c = [rng.uniform(ax[0] - 0.5, ax[-1] + 0.5)]
+        else:
+            a, b = rng.choice(ax), rng.choice(ax)
+            c = [(a + b) / 2, a + (b - a) / 3, a + 0.1, b - 0.1]
+        c = [x for x in c if _fine_ok(x)]
+        return rng.choice(c) if c else e
+
+    tuple_data = dim == 2 or rng.random() < 0.3
+    if not tuple_data:
+        argvar = {"kind": "var", "name": "x", "getter": {"k": "id"}, "type": rng.choice(["", "coordinate"]), "kw": {}}
+    elif dim == 1:
+        argvar = {"kind": "var", "name": "x", "getter": {"k": "proj", "i": 0}, "type": "", "kw": {}}
+    elif rng.random() < 0.3:
+        argvar = {"kind": "var", "name": "xy", "getter": {"k": "id"}, "type": "", "kw": {}}
+    else:
+        argvar = {"kind": "combine", "vars": [{"name": "xy"[k], "i": k, "type": ""} for k in range(2)], "kw": {}}
+    flow = []
+    for _ in range(rng.randint(1, 12 if big else 8)):
+        pt = [int(near(a) * 2.0 ** 60) for a in axes]
+        flow.append(_gen_flow_ctx(rng, {"d": {"t": pt} if tuple_data else pt[0]}))
+    spec, td = _gen_spec_noarith(rng, tuple_data)
+    iaxes = [[int(e * 2.0 ** 60) for e in a] for a in axes]
+    case = {"edges": iaxes[0] if dim == 1 else iaxes, "fscale": _FINE, "inexact": True, "seq_ok": True, "argvar_ok": True,
+            "bare_acc": rng.random() < 0.3, "argvar": argvar, "spec": spec, "flow": flow, "iter": None, "map": None}
+    _noarith_stages(rng, case, td, dim)
+    if rng.random() < 0.15 and any("c" in v for v in flow):
+        case["shared_ctx"] = True
+    _gen_forms(rng, case)
+    return case
+
+
+_BIG = [0, 1, 2, 3, 10, 1000, 2 ** 31, 2 ** 31 + 1, 2 ** 53 - 1, 2 ** 53, 2 ** 53 + 1, 2 ** 53 + 2, 2 ** 60, 2 ** 60 + 1,
+        2 ** 63 - 1, 2 ** 63, 2 ** 64, 10 ** 18, 10 ** 19, 2 ** 80, 10 ** 30, 2 ** 100 + 1]
+
+
+def _gen_bigint(rng, big):
+    """large integer coordinates (time stamps, event numbers): edges of very different sizes on one axis, values one
+    below / on / one above an edge.  The interpolation of get_bin_on_value_1d rounds them when it converts to float.
+    With `as_float` the coordinates are floats (integers and half-integers that a float holds exactly) and the edges
+    stay integers."""
+    as_float = rng.random() < 0.35
+    dim = 1 if rng.random() < 0.7 else 2
+    U = 2 if as_float else 1          # the model's unit: halves in the float mode
+
+    def axis(maxbins):
+        pool = set(_BIG) | set(-x for x in _BIG)
+        base = rng.choice(_BIG[6:])
+        pool |= {base + k for k in range(-3, 4)}
+        if rng.random() < 0.3:
+            pool = {x for x in pool if x >= 0}
+        return sorted(rng.sample(sorted(pool), rng.randint(2, maxbins + 1)))
+
+    axes = [axis(5)] if dim == 1 else [axis(3), axis(3)]
+
+    def near(ax):
+        """the coordinate in the model's unit"""
+        import math
+        e = rng.choice(ax)
+        r = rng.random()
+        if r < 0.5:
+            x = e + rng.choice([-1, 0, 0, 1])
+        elif r < 0.7:
+            a, b = rng.choice(ax), rng.choice(ax)
+            x = (a + b) // 2 + rng.choice([-1, 0, 1])
+        elif r < 0.85:
+            x = rng.randint(ax[0] - 5, ax[-1] + 5)
+        else:
+            x = e + rng.choice([-1, 1]) * rng.choice([2, 100, 2 ** 20, 2 ** 40])
+        if not as_float:
+            return x
+        # a float: the neighbours of the edge among the floats, or x itself / x + 1/2 when a float holds it
+        cands = [2 * x, 2 * x + 1]
+        try:
+            f = float(e)
+            for g in (f, math.nextafter(f, -math.inf), math.nextafter(f, math.inf)):
+                if (g * 2).is_integer():
+                    cands.append(int(g * 2))
+        except OverflowError:
+            pass
+        cands = [n for n in cands if (n / 2) * 2 == n]
+        return rng.choice(cands) if cands else 2 * ax[0]
+
+    tuple_data = dim == 2 or rng.random() < 0.3
+    if not tuple_data:
+        argvar = {"kind": "var", "name": "t", "getter": {"k": "id"}, "type": rng.choice(["", "coordinate"]), "kw": {}}
+    elif dim == 1:
+        argvar = {"kind": "var", "name": "t", "getter": {"k": "proj", "i": 0}, "type": "", "kw": {}}
+    else:
+        argvar = {"kind": "combine", "vars": [{"name": "xy"[k], "i": k, "type": ""} for k in range(2)], "kw": {}}
+    flow = []
+    for _ in range(rng.randint(1, 12 if big else 8)):
+        pt = [near(a) for a in axes]
+        flow.append(_gen_flow_ctx(rng, {"d": {"t": pt} if tuple_data else pt[0]}))
+    edges = [[U * e for e in a] for a in axes]
+    case = {"edges": edges[0] if dim == 1 else edges, "seq_ok": True, "argvar_ok": True, "bare_acc": rng.random() < 0.3,
+            "argvar": argvar, "flow": flow, "iter": None, "map": None}
+    if as_float:
+        case.update({"fscale": 2, "edges_int": True, "inexact": True})
+        case["spec"], td = _gen_spec_noarith(rng, tuple_data)
+        _noarith_stages(rng, case, td, dim, with_iter=False)     # (context.bin.edges would hold unscaled integers)
+    else:
+        case["spec"], res_int = _gen_spec(rng, not tuple_data, False)
+        _gen_stages(rng, case, res_int, False, dim)
+    _gen_forms(rng, case)
+    return case
+
+
+def _gen_long(rng, big):
+    """axes with many bins (17 .. 130 edges): a search that changes its method with the size of the array, and the
+    interpolation over many steps"""
+    dim = 1 if rng.random() < 0.75 else 2
+    ap = rng.random() < 0.4
+    n = rng.choice([16, 17, 18, 20, 24, 31, 32, 33, 40, 50, 64, 65, 100, 129])
+    long_axis = _gen_axis(rng, n, ap, n)
+    axes = [long_axis] if dim == 1 else ([long_axis, _gen_axis(rng, 2)] if rng.random() < 0.5 else [_gen_axis(rng, 2), long_axis])
+    tuple_data = dim == 2 or rng.random() < 0.3
+    if not tuple_data:
+        argvar = {"kind": "var", "name": "x", "getter": {"k": "id"}, "type": rng.choice(["", "", "coordinate"]), "kw": {}}
+    elif dim == 1:
+        argvar = {"kind": "var", "name": "x", "getter": {"k": "proj", "i": 0}, "type": "", "kw": {}}
+    else:
+        argvar = {"kind": "combine", "vars": [{"name": "xy"[k], "i": k, "type": ""} for k in range(2)], "kw": {}}
+    flow = []
+    for _ in range(rng.randint(1, 14 if big else 9)):
+        pt = []
+        for a in axes:
+            r = rng.random()
+            pt.append(rng.choice(a) if r < 0.6 else (rng.choice(a[:2] + a[-2:]) if r < 0.75 else rng.randint(a[0] - 2, a[-1] + 2)))
+        flow.append(_gen_flow_ctx(rng, {"d": {"t": pt} if tuple_data else pt[0]}))
+    spec, res_int = _gen_spec(rng, not tuple_data, False)
+    case = {"edges": axes[0] if dim == 1 else axes, "seq_ok": True, "argvar_ok": True, "bare_acc": rng.random() < 0.3,
+            "argvar": argvar, "spec": spec, "flow": flow, "iter": None, "map": None}
+    if rng.random() < 0.5:
+        _gen_stages(rng, case, res_int, False, dim)
+    if ap and rng.random() < 0.5:
+        case["edges_form"] = "range"
+    _gen_forms(rng, case)
     return case
 
 
@@ -1676,8 +2270,9 @@ _PIPES = [{"k": "setkey", "key": "a", "v": 9},
 
 def _gen_forms(rng, case):
     """edges as tuples, coordinates as a list, a downstream element behind compute()"""
-    if rng.random() < 0.15:
-        case["edges_form"] = rng.choice(["tuple", "tuple", "list_of_tuples", "tuple_of_lists"])
+    if rng.random() < 0.25 and not case.get("edges_form"):
+        case["edges_form"] = rng.choice(["tuple", "tuple", "list_of_tuples", "tuple_of_lists", "range", "array", "array",
+                                         "userseq", "userseq", "mixed", "userseq_of_userseq"])
     a = case["argvar"]
     if a["kind"] == "var" and a["getter"].get("k") == "id" and rng.random() < 0.5 and \
             all(isinstance(v["d"], dict) for v in case["flow"]) and case["flow"]:
@@ -1690,12 +2285,13 @@ def _gen_random(rng, big):
     wild = rng.random() < 0.12
     r = rng.random()
     dim = 1 if r < 0.5 else (2 if r < 0.93 else 3)
+    ap = rng.random() < 0.12                    # arithmetic progressions: the axes can be given as ranges
     if dim == 1:
-        edges = _gen_axis(rng, 4)
+        edges = _gen_axis(rng, 4, ap)
         if rng.random() < 0.04:
             edges = [edges]                     # the unsupported nested form of 1-d edges
     else:
-        edges = [_gen_axis(rng, 3 if dim == 2 else 2) for _ in range(dim)]
+        edges = [_gen_axis(rng, 3 if dim == 2 else 2, ap) for _ in range(dim)]
     axes = edges if isinstance(edges[0], list) else [edges]
     nested = isinstance(edges[0], list)
     # data form and argument variable
@@ -1751,6 +2347,11 @@ def _gen_random(rng, big):
         case["twice"] = True                    # compute() a second time on the same object
     if rng.random() < 0.2:
         case["reuse"] = True                    # a second SplitIntoBins from the same analysis and variable objects
+    if rng.random() < 0.15 and sum(1 for v in flow if "c" in v) >= 1:
+        case["shared_ctx"] = True               # the source re-uses one context dictionary for all values
+        case["bare_acc"] = False
+    if ap and rng.random() < 0.7:
+        case["edges_form"] = rng.choice(["range", "range", "mixed"])
     _gen_forms(rng, case)
     if rng.random() < 0.04:
         bad = rng.random()
@@ -1810,15 +2411,22 @@ def gen_cases(ctx):
         yield c
     for c in _systematic_two_level(ctx.tier):
         yield c
-    n = 3000 if ctx.tier == "quick" else 60000
+    n = 3400 if ctx.tier == "quick" else 60000
+    big = ctx.tier == "thorough"
     for _ in range(n):
         r = rng.random()
-        if r < 0.12:
-            yield _gen_two_level(rng, ctx.tier == "thorough")
-        elif r < 0.22:
-            yield _gen_float(rng, ctx.tier == "thorough")
+        if r < 0.10:
+            yield _gen_two_level(rng, big)
+        elif r < 0.18:
+            yield _gen_float(rng, big)
+        elif r < 0.25:
+            yield _gen_float_fine(rng, big)
+        elif r < 0.31:
+            yield _gen_long(rng, big)
+        elif r < 0.34:
+            yield _gen_bigint(rng, big)
         else:
-            yield _gen_random(rng, ctx.tier == "thorough")
+            yield _gen_random(rng, big)
 
 
 # ----------------------------------------------------------------------------------------
@@ -1849,6 +2457,23 @@ def classify(case, res):
         labels.append("float-coordinates")
     if case.get("twice"):
         labels.append("compute-twice")
+    if case.get("fscale", 1) == _FINE:
+        labels.append("arbitrary-floats")
+    if case.get("edges_int"):
+        labels.append("integer-edges-float-coordinates")
+    if any(abs(x) >= 2 ** 53 * case.get("fscale", 1) for a in (edges if dim > 1 or (edges and isinstance(edges[0], list)) else [edges])
+           for x in a if type(x) is int):
+        labels.append("big-integers")
+    if any(len(a) > 17 for a in (edges if edges and isinstance(edges[0], list) else [edges])):
+        labels.append("long-axis")
+    if case.get("shared_ctx"):
+        labels.append("shared-context-object")
+    for k in ("iter", "map"):
+        st = case.get(k)
+        if st and isinstance(st["sel"], dict):
+            labels.append(k + ":sel=" + st["sel"]["k"] + ("(Selector)" if st["sel"].get("wrap") else ""))
+        if st and st.get("geb"):
+            labels.append("map:get_example_bin=" + st["geb"])
     if "init" in res:
         labels.append("init:" + res["init"])
     elif "fill" in res:
@@ -1875,9 +2500,13 @@ def classify(case, res):
             labels.append("post-stateful")
         if case.get("map") and any(s["k"] in ("count", "acc") for s in case["map"]["steps"]):
             labels.append("map-stateful" + ("-multicell" if len(res["cells"] or []) >= 2 and res["compute"]["out"] else ""))
-        for k in ("edges_form", "pipe", "reuse"):
+        for k in ("pipe", "reuse"):
             if case.get(k):
                 labels.append(k)
+        if case.get("edges_form"):
+            labels.append("edges_form=" + case["edges_form"])
+        if res.get("compute") and len(res["compute"]["out"]) >= 2:
+            labels.append("several-histograms-collected")
         if case["argvar"].get("getter", {}).get("k") == "list":
             labels.append("list-coordinates")
         if any(s["k"] == "acc" for s in (case.get("inner") or case)["spec"]["post"]):
@@ -1904,6 +2533,16 @@ def signature(case, failure):
 
 def shrink(case):
     c = case
+    # big steps first (a candidate that hangs costs the watchdog's whole budget)
+    if c.get("iter") or c.get("map"):
+        yield dict(c, iter=None, map=None)
+    n = len(c["flow"])
+    if n >= 4:
+        yield dict(c, flow=c["flow"][:n // 2])
+        yield dict(c, flow=c["flow"][n // 2:])
+    for k in ("twice", "reuse", "pipe", "edges_form", "shared_ctx"):
+        if c.get(k):
+            yield {kk: v for kk, v in c.items() if kk != k}
     e = c["edges"]
     if e and isinstance(e[0], list):
         for k, a in enumerate(e):
@@ -1937,10 +2576,12 @@ LEVEL_TEXT = ("Lean 4 theorems about a transcribed model of SplitIntoBins / Iter
               "analysis (any fill/compute machine, compute() may raise when called or while iterated), for edges of any "
               "dimension and flows of any length: routing = half-open cells, per-cell state = analysis on the cell's sub-flow, "
               "values / number / exceptions of the yielded histograms, IterateBins cell by cell, MapBins cell by cell with "
-              "progress. The model is a VALUE model: absence of sharing between cells, with the caller's objects and between "
+              "progress, for select_bins in the forms a Selector is made from and for any get_example_bin. The model is a VALUE model: absence of sharing between cells, with the caller's objects and between "
               "yielded contexts ('private copy') is harness-only - a correspondence check over concrete analyses (pre* acc "
               "post*, context-mutating, stateful, multi-result, raising, two-level splits, float coordinates) and a direct "
-              "oracle that recomputes every cell independently, re-uses the caller's objects and tests identity.")
+              "oracle that recomputes every cell independently, re-uses the caller's objects (also one context dictionary for "
+              "the whole flow), reads every yielded object again after the generators have ended and tests identity; "
+              "edges in any sequence type, long axes, large integers and arbitrary floats beside the edges.")
 LEVEL_NOTE = ("Trusted: Lean kernel (+ propext, Classical.choice, Quot.sound), the hand transcription validated by the "
               "correspondence run, the re-used C06/C14/NArr transcriptions, the fixture elements on both sides, the JSON protocol; "
               "object identity / copies are outside the model (harness only); constructor acceptance enters as Booleans.")
